@@ -52,7 +52,7 @@ def pool_rows(s, cfg, m, pname, seed, D, dom, specials, npool):
     rows[1] = r
     # bounded domains: the third row sits a hair inside an end-point (one row exactly ON an end-point and one just inside it is
     # the combination a batch-wide min/max test gets wrong)
-    lo, hi = dom
+    lo, hi = s.domain(cfg)  # (the documented domain itself, not the margin-reduced one the numeric oracles use)
     if lo is not None and hi is not None and len(rows) >= 3:
         rows[2] = rows[2].copy()
         rows[2][0] = lo + 3e-7 * (hi - lo)
